@@ -122,12 +122,13 @@ pub fn new_reader(reliability: ReliabilityKind) -> RtpsStatefulReader {
 
 /// Put the matched writer proxy into the state (first_available, last_available, highest_received)
 /// using only the proxy's own public operations (the fields are private).
-/// `highest` must be >= 0 (0 = nothing received yet, the constructor's value).
+/// `highest` must be >= 0 (0 = nothing received yet, the constructor's value); the watermark is
+/// raised with `received_change_set` (irrelevant_change_set only skips the next expected change).
 pub fn set_proxy_state(r: &mut RtpsStatefulReader, first: i64, last: i64, highest: i64) {
     let wp = r.matched_writer_lookup(W_GUID).unwrap();
     wp.lost_changes_update(first);
     wp.missing_changes_update(last);
-    wp.irrelevant_change_set(highest);
+    wp.received_change_set(highest);
 }
 
 pub fn proxy(r: &mut RtpsStatefulReader) -> &mut RtpsWriterProxy {
